@@ -3,7 +3,14 @@ Cases are operation histories over {load, new backend, init pipeline, convert co
 rule}; the last operation is the probe.  The implementation side (impl/c15.py) runs the history and
 then the probe again in a fresh setup."""
 import itertools, random
-from vlib.core import Property, Suite, cstr, clist, cbool, copt, cnat
+from vlib.core import Property, Suite, clist, cbool, copt, cnat
+from vlib.core import cstr as _cstr
+
+def cstr(s):
+    """printable ASCII goes through Model.History.lit (a string literal elaborates far faster than a list of numerals)"""
+    if all(32 <= ord(c) < 127 for c in s):
+        return '(lit "' + s.replace('"', '""') + '")'
+    return _cstr(s)
 
 # ---------------------------------------------------------------- catalogue
 ST = {"type": "set_state", "id": "st", "key": "index", "val": "win", "cond": ["product", 1]}
@@ -201,18 +208,17 @@ def c_item(d):
     if d["type"] == "set_state": tr = f"(TSetState {cstr(d['key'])} {cstr(d['val'])})"
     elif d["type"] == "field_name_mapping": tr = "(TFieldMap " + clist(f"({cstr(a)}, {cstr(b)})" for a, b in d["mapping"]) + ")"
     else: tr = "TFail"
-    return f"{{| i_id := {iid}; i_cond := {cond}; i_tr := {tr} |}}"
+    return f"(Build_item {iid} {cond} {tr})"
 
 KIND = {"num": "VNum", "str": "VStr", "star": "VStar", "sw": "VStar", "ph": "VPh"}
 def c_rule(r):
     if r["bad"]:
         _, tag, mods = BAD[r["bad"]]
-        return f"{{| r_bad := Some {tag}; r_mods := {clist(str(m) for m in mods)}; r_product := 0; r_dets := []; r_conds := [] |}}"
+        return f"(Build_rule (Some {tag}) {clist(str(m) for m in mods)} 0 [] [])"
     mods = [1 if k == "sw" else 2 for _, items in r["dets"] for _, k, _ in items if k in ("sw", "ph")]
-    dets = clist("(" + cstr(n) + ", " + clist(f"{{| di_field := {cstr(f)}; di_text := {cstr(t)}; di_kind := {KIND[k]} |}}" for f, k, t in items) + ")"
+    dets = clist("(" + cstr(n) + ", " + clist(f"(Build_ditem {cstr(f)} {cstr(t)} {KIND[k]})" for f, k, t in items) + ")"
                  for n, items in r["dets"])
-    return (f"{{| r_bad := None; r_mods := {clist(str(m) for m in mods)}; r_product := {r['product']}; "
-            f"r_dets := {dets}; r_conds := {clist(cstr(c) for c in r['conds'])} |}}")
+    return f"(Build_rule None {clist(str(m) for m in mods)} {r['product']} {dets} {clist(cstr(c) for c in r['conds'])})"
 
 def c_tree(t):
     if t[0] == "id": return f"(PId {cstr(t[1])})"
@@ -273,15 +279,14 @@ def c_res(r):
 
 def c_iout(o):
     s = o.get("snap")
-    snap = "None" if s is None else ("(Some {| s_applied := " + clist(cbool(b) for b in s["applied"]) +
-        "; s_ids := " + clist(cstr(x) for x in s["ids"]) +
-        "; s_state := " + clist(f"({cstr(k)}, {cstr(v)})" for k, v in s["state"]) +
-        "; s_fmap := " + clist(f"({cstr(k)}, {clist(cstr(x) for x in v)})" for k, v in s["fmap"]) + " |})")
+    snap = "None" if s is None else ("(Some (Build_isnap " + clist(cbool(b) for b in s["applied"]) +
+        " " + clist(cstr(x) for x in s["ids"]) +
+        " " + clist(f"({cstr(k)}, {cstr(v)})" for k, v in s["state"]) +
+        " " + clist(f"({cstr(k)}, {clist(cstr(x) for x in v)})" for k, v in s["fmap"]) + "))")
     i = o["int"]
     errs = clist(str(ERRTAG.get(e, 99)) for e in o.get("errs", []))
     hints = clist(str(MODID.get(h, 99)) for h in i["hints"])
-    return (f"{{| io_res := {c_res(o['r'])}; io_errs := {errs}; io_snap := {snap}; io_hits := {i['hits']}; "
-            f"io_miss := {i['misses']}; io_hints := {hints}; io_tpl_ok := {cbool(i['tpl_ok'])} |}}")
+    return f"(Build_iout {c_res(o['r'])} {errs} {snap} {i['hits']} {i['misses']} {hints} {cbool(i['tpl_ok'])})"
 
 def history_to_coq(c, r):
     if "exc" in r: return None
